@@ -130,11 +130,11 @@ def bfn(name, sym, f, tr):
                        'R27: statement outlined into an assumed-contract helper (iterator adapters zip/for_each are outside Verus)'),
                       ('new[i].iter_mut().zip(&m2[0]).for_each(|(x, y)| *x = *x %s y);' % sym, '%s(&mut new, i, m2);' % vr, 'R27'),
                       (r'\b(m[12])\[0\]\[0\]\s*%s\s*(m[12])\b(?!\s*\[)' % re.escape(sym),
-                       (r'({ let sm_ = %s::%s(\1[0][0], \2); proof { assert forall|r: int, c: int| 0 <= r < sm_.nrows && 0 <= c < sm_.ncols implies #[trigger] at2(sm_.data.v@, sm_.ncols as int, r, c) == ' % (tr, name))
+                       (r'({ proof { lemma_row(0, \1.nrows as int, \1.ncols as int); assert(\1.data.v@.subrange(0 * \1.ncols, (0 + 1) * \1.ncols).len() == \1.ncols); } let sm_ = %s::%s(\1[0][0], \2); proof { assert forall|r: int, c: int| 0 <= r < sm_.nrows && 0 <= c < sm_.ncols implies #[trigger] at2(sm_.data.v@, sm_.ncols as int, r, c) == ' % (tr, name))
                        + E('bc(*m1, r, c)', 'bc(*m2, r, c)') + ' by { lemma_idx(r, c, sm_.nrows as int, sm_.ncols as int); } } sm_ })',
                        'R17: `scalar-entry op &Matrix` written as the trait call it desugars to (Verus ICE on the operator form), result bound for the entry-wise proof hint', 're?'),
                       (r'\b(m[12])\s*%s\s*(m[12])\[0\]\[0\]' % re.escape(sym),
-                       (r'({ let ms_ = %s::%s(\1, \2[0][0]); proof { assert forall|r: int, c: int| 0 <= r < ms_.nrows && 0 <= c < ms_.ncols implies #[trigger] at2(ms_.data.v@, ms_.ncols as int, r, c) == ' % (tr, name))
+                       (r'({ proof { lemma_row(0, \2.nrows as int, \2.ncols as int); assert(\2.data.v@.subrange(0 * \2.ncols, (0 + 1) * \2.ncols).len() == \2.ncols); } let ms_ = %s::%s(\1, \2[0][0]); proof { assert forall|r: int, c: int| 0 <= r < ms_.nrows && 0 <= c < ms_.ncols implies #[trigger] at2(ms_.data.v@, ms_.ncols as int, r, c) == ' % (tr, name))
                        + E('bc(*m1, r, c)', 'bc(*m2, r, c)') + ' by { lemma_idx(r, c, ms_.nrows as int, ms_.ncols as int); } } ms_ })',
                        'R17 (matrix op scalar-entry)', 're?')],
             closures={1: {'params': 'x: f64', 'ret': 'o: f64', 'ensures': ['o == ' + E('at2(m1.data.v@, m1.ncols as int, i as int, 0)', 'x')]},
